@@ -1,4 +1,5 @@
 from vcommon import Suite
+from upload_common import rewrite_upload_fault
 
 
 def rewrite_counter_for_faults(dst):
@@ -50,17 +51,44 @@ FAULT_FILE = Suite(
          "number of calls made by the open, parked or mapped, total number of calls, where the counts ended (in "
          "memory / in the file). distinct = distinct case lines; none is trivial")
 
+FAULT_UPLOAD = Suite(
+    name="fault-upload", harness="vh_upload", runner="uploadf",
+    model_deps=["theories/Model/Uploader.vo", "theories/Model/UploaderFault.vo"],
+    quick_n=1500, thorough_n=12000, rewrite=rewrite_upload_fault, tags="verif", extra_args=["c05"],
+    rule="each case is one run of the real uploader under a fault plan: a telemetry directory generated as for C07/C08 "
+         "(count files written by the real counter library: 1-3 program builds x 1-3 weeks, expired / active / empty / "
+         "malformed, optional leftover reports, markers, stale lock, stray *.json; mode on or local), copied afresh for "
+         "every plan; the exported upload.Run (with its recover; 3 of 4 directory states in mode local) or the inner "
+         "uploader.Run via VerifNewUploader; 'os', 'net/http' and 'crypto/rand' of internal/upload rewritten (import "
+         "lines only, scratch copy) to the shims vos / vhttp / vrand in PLAN mode: every call ReadDir, ReadFile, Stat, "
+         "OpenFile, File.Write, File.Close, WriteFile, Remove, MkdirAll, Post and the entropy read has an index in "
+         "program order and the plan maps index -> ok | ENOENT | EACCES | ENOSPC | EIO | short write (first half of the "
+         "bytes) | for Post: transport error / 5xx / 4xx. Plans: none; every single call index of the fault-free run x "
+         "kind (all five error kinds on the first two directory states, EIO and short write on the others; 4xx / 5xx at "
+         "the Post indices); in thorough all five kinds everywhere, all PAIRS of call indices below 31 x {EIO, short} x {ENOSPC, short} on "
+         "the first three states, and on every other state six random plans with 2-3 faults. Observables compared with Model/UploaderFault run on the same "
+         "directory, plan and observed week order: number of calls made, panic raised, final listing of local/ and "
+         "upload/ with content classes and report sums, requests received by the server. Oracles on the "
+         "implementation's observations (PROP classes): call-bound (more than 21 n + 6 calls), hang (step budget "
+         "exceeded), panic-escaped (a panic left the exported Run), active-file-touched, deleted-without-report, "
+         "counts-duplicated (a file's counts in two reports or twice in one), counts-lost (a count file gone whose "
+         "counts are in no completely written local report although the week had no report before). distinct = "
+         "distinct case lines; none is trivial")
+
 SPEC = {
     "id": "C05",
     "title": "Telemetry failures never crash, hang or block the host program",
     "design_ref": "DESIGN.md section 7, C05",
-    # the counter-file half; the uploader half appends its suite here
-    "suites": [FAULT_FILE],
+    # the counter-file half and the uploader half
+    "suites": [FAULT_FILE, FAULT_UPLOAD],
     "technique": "Coq proofs over a byte-level model of one process on an ARBITRARY file (totality with explicit fuel "
                  "bounds, frame rule, computed counterexamples for the unguarded variants) and over a fault-plan "
                  "model of the open / extend call sequences (for every plan); differential execution of the "
-                 "extracted models against the real code on damaged files and under injected file-system faults",
-    "level_text": "Counter-file half of C05 (the uploader half is a separate suite). Machine-checked (Coq 8.16, no "
+                 "extracted models against the real code on damaged files and under injected file-system faults; "
+                 "uploader half: Coq invariants over a solo uploader.Run under EVERY fault plan (potential function for "
+                 "the call bound, inductive invariants for isolation and keeps-or-drops) + differential execution of the "
+                 "extracted fault model against the real upload.Run with fault-injecting os / http / rand shims",
+    "level_text": "COUNTER-FILE HALF. Machine-checked (Coq 8.16, no "
                   "axioms): for EVERY file (any length >= end of the hash table, any bytes) and every name: "
                   "C05_lookup_total (lookup returns within len/32+3 walk iterations, no access outside the mapping), "
                   "C05_newcounter_total (newCounter returns after at most one extension, no fault, for every file: the "
@@ -74,7 +102,18 @@ SPEC = {
                   "Computed refutations showing what each guard is for and what no guard prevents: "
                   "C05_lookup_unbounded_refuted (no walk bound = before fix a9b3f3d: diverges), "
                   "C05_table_unprotected_refuted (no table bound = before fix 69df376: bucket heads overwritten), "
-                  "C05_isolation_limit_refuted (known finding limit-below-records).",
+                  "C05_isolation_limit_refuted (known finding limit-below-records). "
+                  "UPLOADER HALF (Model/UploaderFault: a solo uploader.Run, every os / http / entropy call indexed in "
+                  "program order, fault plan index -> ok | error | short write | 4xx | 5xx). For EVERY plan, map iteration "
+                  "order, initial directory and configuration: C05_run_total (the run returns after at most 21 n + 6 "
+                  "calls, n = entries of local/, C05_call_bound; the only panic is computeRandom's on an entropy failure, "
+                  "which the exported Run recovers), C05_fault_active_untouched (a count file that is not expired keeps "
+                  "inode and content), C05_fault_delete_only_after_report (a count file is removed only as an expired file "
+                  "of the week being deleted, with a report witness present), C05_fault_keeps_or_drops (week without "
+                  "report before: every count file is still there unchanged, or its counts are in a COMPLETELY written "
+                  "local.W.json that lists every file once and only expired files of W - a failed or short write never "
+                  "loses counts within the run), C05_fault_ready_removed_only (a ready report is removed only when the "
+                  "server's marker exists or the server answered this report with a 4xx).",
     "level_note": "Proved about the models, sampled for the code by the suite fault-file. Model/FileRest is ONE process on "
                   "a file at rest (the mapping is the whole file); interference of other processes on damaged files is "
                   "not modelled (C04 covers well-formed files). The model has the fixes 219cb21 (load32 bound) and "
@@ -87,19 +126,42 @@ SPEC = {
                   "any call). The fault-plan theorems are about the call sequences of rotate1 (first open) and one "
                   "extension, not about arbitrary later rotations (time-driven rotation repeats rotate1 on a fresh "
                   "name). Parked => in-memory is a one-step fact of the C03 transition system for the program points "
-                  "of an Add without pointer. SIGBUS on truncation of a live mapping is outside the property.",
+                  "of an Add without pointer. SIGBUS on truncation of a live mapping is outside the property. "
+                  "UPLOADER HALF: proved about Model/UploaderFault, sampled for the code by the suite fault-upload. ONE run, "
+                  "alone in its directory (concurrent uploaders under faults are not modelled; C07/C08 cover concurrency "
+                  "without faults). The four errno kinds take the same branch (no os.IsExist / IsNotExist distinction is "
+                  "reachable except OpenFile O_EXCL on an existing file, which is modelled from the directory state, not "
+                  "from the plan). A macro step groups Write+Close and OpenFile+Close of the lock; a failed Close of a written "
+                  "file counts as a failed write. The model's panic state stands for both the recovered panic of the exported "
+                  "Run and the escaping panic of the inner uploader.Run; that the exported Run returns is checked by the "
+                  "suite (class panic-escaped), not proved. keeps_or_drops is about ONE run and a week with no report "
+                  "before it; ACROSS runs counts can be lost after a fault (observations of the suite's model, not "
+                  "violations of the stated property): a transient ReadFile error on one count file gives a week report "
+                  "without it and a later run deletes the unread file because the report exists; a short write of "
+                  "local.W.json leaves a truncated report whose mere existence makes the next run delete the week's count "
+                  "files; a failed marker write after a 200 leaves W.json in local/, so the next run posts the week again; "
+                  "a failed Remove of the lock leaves a stale lock that blocks the week. Reads of the mode file (package "
+                  "telemetry) and of the upload config are not fault points.",
     "assumptions": [
         "the header length H is the one computed from the metadata (openMapped has checked the header prefix); "
         "table_end H + 4 <= file length (openMapped extends any shorter file to 16 KiB first)",
         "one process, file at rest: no concurrent writer while the damaged file is used",
         "a fault plan changes only the outcome of the planned calls; a short write writes the first half of the bytes",
         "atomic 32/64-bit accesses at any byte offset behave as plain little-endian accesses (amd64)",
+        "uploader half: one uploader alone in its telemetry directory; a failing call has no effect on the file system "
+        "except a short write (first half of the bytes stored); a failed Post reaches no server; the os calls of "
+        "internal/upload are atomic at the granularity of one call",
     ],
     "trusted_base": [
         "harness/shim/vosc (fault-injecting os), vsched / vatomic / vsync; import rewrite of internal/counter "
         "(sync/atomic, sync, os) and internal/mmap (os) in the scratch copy, import lines only; memmap wrapped as a "
         "fault point (harness/inject/internal/counter/zz_verif_fault.go)",
+        "uploader half: harness/shim/vos (plan mode), vhttp, vrand; import rewrite of internal/upload (os, net/http, "
+        "crypto/rand) in the scratch copy, import lines only; harness/cmd/vh_upload (fault mode), ocaml/uploadf_main.ml",
     ],
     "own_objects": ["theories/Props/C05.vo", "theories/Proofs/FileRestFacts.vo", "theories/Proofs/FileRestWitness.vo",
-                    "theories/Proofs/FileFaultFacts.vo", "theories/Model/FileRest.vo", "theories/Model/FileFault.vo"],
+                    "theories/Proofs/FileFaultFacts.vo", "theories/Model/FileRest.vo", "theories/Model/FileFault.vo",
+                    "theories/Model/UploaderFault.vo", "theories/Proofs/UploaderFaultFacts.vo",
+                    "theories/Proofs/UploaderFaultInv.vo", "theories/Proofs/UploaderFaultIso.vo",
+                    "theories/Proofs/UploaderFaultKeep.vo", "theories/Proofs/UploaderFaultDrop.vo"],
 }
